@@ -38,6 +38,17 @@ CLAIMED = {
                 "are known exceptions, reported as findings once those streams are enabled).",
         "design_ref": "DESIGN.md §7 C08, §4.1",
     },
+    "C18": {
+        "text": "Lean 4 theorems (any number of beta rows and storages): add_free_dart(s) returns n and the new ids n..n+k-1 are non-null, "
+                "new, below the new count, in use, free and valueless, counters move as documented; insert_free_dart returns the smallest "
+                "removed slot (non-null because the null dart is never flagged, proved) or appends; remove_free_dart refuses iff linked or "
+                "already removed; every id below the dart count is addressable in every storage (part of WF, preserved by every call: C01); "
+                "iterators exclude removed darts. The clause 'a new dart has no value' is proved FALSE for reused slots (negation witness, "
+                "finding D10) and proved under the blank-slot hypothesis. Tie: allocation histories on real CMap2/CMap3 with every "
+                "attribute mask, every id probed in every storage after each allocation, diffed against the model, oracle on the real map.",
+        "note": "Trusted: Lean kernel + 3 standard axioms; hand-written model of allocation (Vec growth = array append); known finding D10.",
+        "design_ref": "DESIGN.md §7 C18",
+    },
 }
 
 REASONS_NOT_YET = "check not built yet in this round (planned, see DESIGN.md §7); no claim is made"
